@@ -645,6 +645,51 @@ def run_free(scn_dir: str, work: Path, n: int, orders: list, cursor: bool, seed:
 # ---------------------------------------------------------------------------
 # serial reference, judging
 # ---------------------------------------------------------------------------
+def run_contended(scn_dir: str, work: Path, orders: list, seed: int, hold: float):
+    """Worker 1 holds the write lock of its bootstrap-page write (INSERT done, COMMIT pending) for `hold`
+    seconds while worker 2 attempts its own first write (spec/LockWait.tla).  -> (finals, waited_ok)"""
+    shutil.rmtree(work, ignore_errors=True)
+    shutil.copytree(scn_dir, work)
+    kids = spawn(2, str(work), orders, False, "control", seed, [0, 0])
+    trace: list = []
+    tracked = tracked_titles()
+    try:
+        if not wait_for(kids, lambda: all(c.state in ("want", "finished", "dead") for c in kids), 20):
+            raise RuntimeError("workers did not start")
+        H, C = kids
+
+        def advance(c, cls):
+            n = 0
+            while c.state == "want" and c.want["cls"] != cls and n < 200:
+                step(kids, c, tracked, trace)
+                n += 1
+            return c.state == "want" and c.want["cls"] == cls
+
+        if not advance(H, "write"):
+            raise RuntimeError("worker 1 never reached its bootstrap write")
+        step(kids, H, tracked, trace)            # INSERT: H now holds the write lock
+        if not (H.state == "want" and H.want["cls"] == "commit"):
+            raise RuntimeError("worker 1 did not stop before its commit")
+        if not advance(C, "write"):
+            raise RuntimeError("worker 2 never reached its bootstrap write")
+        grant(C)                                  # blocks in SQLite's busy handler behind H's lock
+        t0 = time.time()
+        while time.time() - t0 < hold:
+            pump(kids, 0.05)
+        step(kids, H, tracked, trace)            # COMMIT releases the lock
+        wait_for(kids, lambda: C.state in ("want", "finished", "dead"), 9)
+        guard = 0
+        while any(c.state == "want" for c in kids) and guard < 500:
+            for c in kids:
+                if c.state == "want":
+                    step(kids, c, tracked, trace)
+                    guard += 1
+        finals = [c.final if c.state == "finished" else None for c in kids]
+    finally:
+        kill_all(kids)
+    return finals, read_store(work)
+
+
 def serial_reference(scns: dict, root: Path) -> dict:
     """(bak, boot) -> {results, rows}: what a single process obtains and leaves."""
     ref = {}
@@ -855,6 +900,31 @@ def run(tier: str) -> int:
             n = [2, 3, 4, 6, 8, 12, 16][sid % 7] if sid < 14 else srng.randint(2, 16)
             plan.append((sid, n, srng.random() < 0.5, srng.random() < 0.4, srng.random() < 0.4))
         stress = pmap(stress_chunk, plan, nproc=3, chunk=1)
+        # ---- contended first write (spec/LockWait.tla): the waiting worker must get the lock
+        lw = tlc("LockWait", "MC_LockWait.cfg", workers=1)
+        o.add_tlc("MC_LockWait (NeverLocked, EventuallyWrites)", lw)
+        dlw = tlc("LockWait", "Demo_LockWait_short.cfg", workers=1, check=False)
+        if not dlw.invariant_violated:
+            raise common.TLCError("Demo_LockWait_short lost its counterexample")
+        holds = sorted({int(l.split(",")[1].strip(" >")) for l in lw.out.splitlines() if l.startswith('<<"CASE"')})
+        chosen = [h for h in holds if h in ((3, 12, 20) if thorough else (3, 12))]
+        key = (False, False)
+        for hold in chosen:
+            rngc = random.Random(common.seed() * 13 + hold)
+            orders = [rngc.sample(titles(), NPAGES) for _ in range(2)]
+            try:
+                finals, store = run_contended(scns[key], Path(root) / f"cont{hold}", orders, hold, hold / 10.0)
+            except RuntimeError as e:
+                o.note_drift({"contended": hold, "why": str(e)})
+                continue
+            o.evaluations += 1
+            o.traces += 1
+            real = [classify_worker(f, ref[key]["results"], od) for f, od in zip(finals, orders)]
+            o.shape(("contended", hold, tuple(real)))
+            if any(x != "ok" for x in real) or not store_ok(store, ref[key]):
+                o.violation({"kind": "contended-write", "hold_s": hold / 10.0, "real": real, "excs": [f and f["exc"] for f in finals]},
+                            f"worker 2 attempted its first write while worker 1 held the write lock for {hold / 10.0:.1f} s: outcome {real} (a waiting writer must get the lock: LockWait.NeverLocked)",
+                            cls="contended-write")
     # ---- M ------------------------------------------------------------------------
     r = tlc("MC_Workers", "MC_Workers_ideal.cfg", workers=16, timeout=900, coverage=True)
     o.add_tlc("MC_ideal_2", r)
